@@ -41,7 +41,7 @@ def main():
     props = [a for a in sys.argv if a in ("C04", "C05", "C16")] or ["C04", "C05", "C16"]
     wt = tempfile.mkdtemp(prefix="verif-benign-")
     os.rmdir(wt)
-    rc, o, e = sh(["git", "-C", "/repo", "worktree", "add", "-q", "--detach", wt, "HEAD"])
+    rc, o, e = sh(["git", "-C", "/repo", "worktree", "add", "-q", "--detach", wt, os.environ.get("EVAL_BASE", "HEAD")])
     assert rc == 0, e
     ran = []
     try:
